@@ -153,7 +153,7 @@ func (ob *observer) observeString(ref obj.Ref, where string, container uint32, r
 
 // observeBody classifies raw stream data against the decoded data that was
 // written (or a marker that must occur in it).
-func (ob *observer) observeBody(ref obj.Ref, where string, dict obj.Dict, raw, body, marker []byte) Item {
+func (ob *observer) observeBody(ref obj.Ref, where string, dict obj.Dict, raw, body, marker []byte) (Item, bool) {
 	res := func(r obj.Ref) (obj.Value, bool) { return ob.f.Lookup(r) }
 	matches := func(data []byte) bool {
 		dec, err := strict.Decode(dict, data, res)
@@ -172,11 +172,10 @@ func (ob *observer) observeBody(ref obj.Ref, where string, dict obj.Dict, raw, b
 	it := Item{Num: int(ref.Num), Gen: int(ref.Gen), Where: where, Plain: plainID(plain), Len: len(plain), Cipher: "?", Key: "?", Ct: digest(raw)}
 	if matches(raw) {
 		if len(raw) == 0 && !ob.h.StmM.AES() {
-			it.Cipher, it.Key, it.OK = "RC4", "own", true // RC4 of nothing
-			return it
+			return it, false // RC4 of nothing is nothing: no information
 		}
 		it.Cipher, it.Key, it.OK = "none", "", true
-		return it
+		return it, true
 	}
 	for _, c := range ob.candidates(ref, true, 0) {
 		d, err := secure.DecryptStream(c.key, c.aes, raw)
@@ -187,10 +186,10 @@ func (ob *observer) observeBody(ref obj.Ref, where string, dict obj.Dict, raw, b
 			} else {
 				it.Cipher = "RC4"
 			}
-			return it
+			return it, true
 		}
 	}
-	return it
+	return it, true
 }
 
 // walk pairs the strings of the value found in the file with the strings of
@@ -525,8 +524,10 @@ func observe(p *produced) (Record, error) {
 			case firstFilterIsCrypt(st.Dict):
 				where = "identity"
 			}
-			it := ob.observeBody(ref, where, st.Dict, st.Raw, w.Body, w.Marker)
-			rec.Items = append(rec.Items, it)
+			it, informative := ob.observeBody(ref, where, st.Dict, st.Raw, w.Body, w.Marker)
+			if informative {
+				rec.Items = append(rec.Items, it)
+			}
 			if it.Cipher == "none" && (where == "identity" || where == "metadata" && !rec.EMD) && o.Stream != nil {
 				ob.exempt = append(ob.exempt, [2]int64{o.Stream.DataOffset, o.Stream.DataOffset + int64(len(st.Raw)) + 1})
 			}
